@@ -2,6 +2,8 @@ package ansi
 
 import (
 	"bufio"
+	"strings"
+	"time"
 
 	"git.sr.ht/~rockorager/vaxis/zzverif"
 )
@@ -257,4 +259,48 @@ func firstESC(s []Sequence) (ESC, bool) {
 	}
 	e, ok := s[0].(ESC)
 	return e, ok
+}
+
+// VerifC08SlowConsumer: the real run loop in its goroutine, a stream in which every ESC is
+// promptly followed by further bytes (it arrives in one read), and a consumer that starts
+// draining the two-slot channel only after a delay (virtual time: timers fire in deadline
+// order when every goroutine is blocked): however long the parser waits for the consumer,
+// no ESC of the stream is reported as the Escape key, and the sequences arrive complete and
+// in order.
+func VerifC08SlowConsumer() {
+	streams := []string{"ab\x1b]0;t\x1b\\z", "ab\x1bP1$qm\x1b\\z", "abc\x1b[Az", "ab\x1b_Gi=1\x1b\\z"}
+	k := zzverif.Choose("stream", len(streams))
+	p := NewParser(strings.NewReader(streams[k]))
+	<-time.After(50 * time.Millisecond) // the consumer is busy elsewhere
+	escapes, prints := 0, ""
+	strings_, csis := 0, 0
+	zzverif.Terminates(3000)
+	for s := range p.Next() {
+		switch s := s.(type) {
+		case C0:
+			if s == 0x1B {
+				escapes++
+			}
+		case Print:
+			prints += s.Grapheme
+		case OSC, DCS, APC:
+			strings_++
+		case CSI:
+			csis++
+		}
+		if _, ok := s.(EOF); ok {
+			break
+		}
+		p.Finish(s)
+		<-time.After(20 * time.Millisecond) // ... and slow
+	}
+	zzverif.Assert(escapes == 0, "no-escape-key-for-an-esc-promptly-followed-by-bytes")
+	wantPrints := []string{"abz", "abz", "abcz", "abz"}[k]
+	zzverif.Assert(prints == wantPrints, "printable-text-complete-and-in-order")
+	if k == 2 {
+		zzverif.Assert(csis == 1 && strings_ == 0, "one-control-sequence")
+	} else {
+		zzverif.Assert(strings_ == 1 && csis == 0, "one-control-string")
+	}
+	zzverif.Reach("end")
 }
